@@ -358,6 +358,14 @@ InitChunks ==
   /\ prob \in {[len |-> l, k |-> k] : l \in 0..MaxLen, k \in 1..MaxK}
   /\ pcs = <<>> /\ mem = <<>> /\ wl = <<>> /\ safe = TRUE /\ hist = <<>>
 ChunksOK == (Mode = "chunks") => IsPartition(Chunks(prob.len, prob.k), prob.len, prob.k)
+(* link to the unbounded TLAPS proof (ChunksProof.tla: StepPositive, AtMostK, NonEmptyConsecutive, Covers for ALL len, k):
+   the ranges of this model are exactly the chunks Lo(i)..Hi(i), i = 0, 1, ... while IsChunk(i), of that module *)
+CP(l, kk) == INSTANCE ChunksProof WITH len <- l, k <- kk
+ChunksAsProved ==
+  (Mode = "chunks" /\ Variant # "racy") =>
+     LET l == prob.len  kk == prob.k  ch == Chunks(l, kk) IN
+     /\ \A c \in 1..Len(ch) : CP(l, kk)!IsChunk(c - 1) /\ ch[c] = <<CP(l, kk)!Lo(c - 1), CP(l, kk)!Hi(c - 1)>>
+     /\ ~CP(l, kk)!IsChunk(Len(ch))
 EmitChunks == (Mode = "chunks" /\ DoEmit) =>
   Emit("CHUNK", [len |-> prob.len, k |-> prob.k, ranges |-> Chunks(prob.len, prob.k)])
 
